@@ -7,6 +7,7 @@ import (
 	"bytes"
 	"crypto"
 	"crypto/sha256"
+	"encoding/binary"
 	"errors"
 	"fmt"
 	"io"
@@ -92,6 +93,17 @@ func genCase(t *rapid.T) Case {
 				bad[4], bad[5] = 0x00, 0x01
 				if out, err := acode.WithTable(c.Img, append(table, bad...)); err == nil {
 					c.Img, c.BadTail = out, true
+				}
+			}
+		}
+		if !c.BadTail && rapid.IntRange(0, 5).Draw(t, "cutpadding") == 0 {
+			// the file ends with the last entry itself, without the alignment bytes behind it (a truncating copy): the
+			// certificate table then is not a multiple of 8 long
+			if es, l, err := acode.Table(c.Img); err == nil && l != nil && len(es) > 0 {
+				if p := len(es[len(es)-1].Padding); p > 0 {
+					img := append([]byte{}, c.Img[:len(c.Img)-p]...)
+					binary.LittleEndian.PutUint32(img[l.DD4Off+4:], l.CertSize-uint32(p))
+					c.Img = img
 				}
 			}
 		}
